@@ -1871,6 +1871,18 @@ class LangServer:
         if file_log:
             fname = "fortls_debug.log"
             fname = os.path.join(self.root_path, fname)
+            # Only ever (over)write a regular file, never follow a symbolic link
+            if os.path.islink(fname) or (
+                os.path.exists(fname) and not os.path.isfile(fname)
+            ):
+                file_log = False
+                self.post_messages.append(
+                    [
+                        Severity.warn,
+                        f"Debug log disabled: '{fname}' is not a regular file",
+                    ]
+                )
+        if file_log:
             logging.basicConfig(filename=fname, level=logging.DEBUG, filemode="w")
             # Also forward logs to the console
             consoleHandler = logging.StreamHandler()
